@@ -1,70 +1,86 @@
+mod c13;
 mod digest;
 mod docgen;
+mod docs;
 mod families;
+mod framework;
 mod ops;
 mod rng;
 mod sched;
 mod seams;
+mod selftest;
 
-use rng::Rng;
+use framework::*;
 
-fn selftest_docs(n: u64) -> i32 {
-    let mut bad = 0;
-    for seed in 0..n {
-        for fam in [families::Family::Rich, families::Family::TwoLeaf, families::Family::CyclicParents] {
-            let mut rng = Rng::new(rng::run_seed(1, fam.name(), seed));
-            let spec = families::generate(&fam, &mut rng);
-            let w = docgen::write_doc(&spec);
-            if let Err(e) = docgen::self_check(&spec, &w) {
-                println!("SELF-CHECK FAIL {} seed {}: {}", fam.name(), seed, e);
-                bad += 1;
-                continue;
-            }
-            let j = spec.to_json();
-            let back = docgen::DocSpec::from_json(&j);
-            if back.as_ref() != Some(&spec) {
-                println!("JSON ROUNDTRIP FAIL {} seed {}", fam.name(), seed);
-                bad += 1;
-            }
-            let inv = ops::inventory(&w.bytes, b"");
-            if !inv.loadable {
-                let ctl = seams::SimCtl::new(false, false);
-                let e = ops::open(&w.bytes, &ctl, false, b"").err();
-                println!("LOAD FAIL {} seed {}: {:?}", fam.name(), seed, e);
-                std::fs::write(format!("/tmp/fail_{}_{}.pdf", fam.name(), seed), &w.bytes).ok();
-                bad += 1;
-                continue;
-            }
-            if seed < 2 {
-                println!("{} seed {}: {} bytes, size {}, pages {}", fam.name(), seed, w.bytes.len(), inv.size, inv.n_pages);
-                let ctl = seams::SimCtl::new(false, false);
-                let file = ops::open(&w.bytes, &ctl, false, b"").unwrap();
-                let res = file.resolver();
-                for (id, kind) in &inv.objects {
-                    for op in ops::right_ops(*id, *kind) {
-                        let a = ops::exec(&file, &res, false, &op);
-                        println!("   {:?} {:?} -> {}", kind, op, a.text);
-                    }
-                }
-                for p in 0..inv.n_pages {
-                    for op in [ops::Op::GetPage(p), ops::Op::PageWalk(p), ops::Op::LazyAnnots(p), ops::Op::LazyFont(p)] {
-                        let a = ops::exec(&file, &res, false, &op);
-                        println!("   {:?} -> {}", op, a.text);
-                    }
-                }
-            }
-        }
+fn make_check(id: &str) -> Option<Box<dyn Check>> {
+    match id {
+        "C13" => Some(Box::new(c13::C13::new())),
+        _ => None,
     }
-    println!("selftest-docs: {} failures", bad);
-    if bad > 0 { 2 } else { 0 }
+}
+
+fn env_seed() -> u64 {
+    std::env::var("VERIF_SEED").ok().and_then(|s| s.parse().ok()).unwrap_or(1)
 }
 
 fn main() {
+    // everything runs on a thread with a large stack: the harness's own rendering and shrinking
+    // must never be what overflows (C01/C14 walks get their own threads with the stack under test)
+    let h = std::thread::Builder::new().stack_size(512 << 20).spawn(real_main).expect("spawn main");
+    let _ = h.join();
+    std::process::exit(3);
+}
+
+fn real_main() {
     let args: Vec<String> = std::env::args().collect();
     seams::install_hooks();
-    let code = match args.get(1).map(|s| s.as_str()) {
-        Some("selftest-docs") => selftest_docs(args.get(2).and_then(|s| s.parse().ok()).unwrap_or(50)),
-        _ => { eprintln!("usage"); 2 }
+    install_panic_hook();
+    let repo = std::env::var("PDF_REPO").unwrap_or_else(|_| "/repo".into());
+    let root = std::env::var("VERIF_ROOT").unwrap_or_else(|_| "/verif".into());
+    let a = |i: usize| args.get(i).map(|s| s.as_str()).unwrap_or("");
+    let code = match a(1) {
+        "selftest-docs" => selftest::docs(a(2).parse().unwrap_or(50)),
+        "--worker" | "--worker-list" => {
+            let mut check = match make_check(a(2)) {
+                Some(c) => c,
+                None => std::process::exit(2),
+            };
+            let tier = Tier::parse(a(3)).unwrap_or(Tier::Quick);
+            let seed: u64 = a(4).parse().unwrap_or(1);
+            let ctx = WorkerCtx { verif_seed: seed, tier, repo };
+            if a(1) == "--worker" {
+                worker_main(check.as_mut(), &ctx, a(5).parse().unwrap_or(0), a(6).parse().unwrap_or(1), a(7).parse().unwrap_or(0))
+            } else {
+                let mut rc = 0;
+                for i in a(5).split(',').filter_map(|x| x.parse::<u64>().ok()) {
+                    rc |= worker_main(check.as_mut(), &ctx, i, 1, i + 1);
+                }
+                rc
+            }
+        }
+        id => match make_check(id) {
+            None => {
+                eprintln!("usage: pdfsim <C01|C02|C09|C12|C13|C14> quick|thorough | <id> --replay <file> | selftest-docs");
+                2
+            }
+            Some(mut check) => {
+                if a(2) == "--replay" {
+                    let ctx = WorkerCtx { verif_seed: env_seed(), tier: Tier::Quick, repo };
+                    replay_main(check.as_mut(), &ctx, a(3))
+                } else {
+                    let tier = match Tier::parse(a(2)).or_else(|| std::env::var("VERIF_TIER").ok().and_then(|t| Tier::parse(&t))) {
+                        Some(t) => t,
+                        None => {
+                            eprintln!("usage: pdfsim {} quick|thorough", id);
+                            std::process::exit(2);
+                        }
+                    };
+                    let info = check.info();
+                    let total = std::env::var("VERIF_RUNS").ok().and_then(|s| s.parse().ok()).unwrap_or_else(|| check.total_runs(tier));
+                    supervisor_main(&info, total, tier, env_seed(), &root)
+                }
+            }
+        },
     };
     std::process::exit(code);
 }
